@@ -213,10 +213,8 @@ def _mk_alias(i, style="flush", bulk=False, slow=0.0, early=False):
             head += f"I{i}_" + "".join(ln + "_" for ln in lines) + f"{i}I\n"
         ehead = ""
         if bulk == "drip":
-            # stderr first, then stdout in several flushed chunks over FILL_DRIP * DRIP_SLEEP seconds:
-            # the stage is still producing stdout long after an early-exit consumer has left
-            stderr.write(f"E{i}\n")
-            stderr.flush()
+            # stdout in several flushed chunks over FILL_DRIP * DRIP_SLEEP seconds (the stage is still
+            # producing stdout long after an early-exit consumer has left), stderr last
             stdout.write(head)
             for _ in range(FILL_DRIP):
                 stdout.write(FILL_LINE)
@@ -224,6 +222,11 @@ def _mk_alias(i, style="flush", bulk=False, slow=0.0, early=False):
                 time.sleep(DRIP_SLEEP)
             stdout.write(f"O{i}\n")
             stdout.flush()
+            try:  # the reader of the pipe stderr feeds may be gone by now: EPIPE is its business
+                stderr.write(f"E{i}\n")
+                stderr.flush()
+            except OSError:
+                pass
             return 0
         if bulk == "out":
             stdout.write(head + FILL_LINE * FILL_FLUSHED)
